@@ -202,6 +202,12 @@ def unit_gauss_contracts():
     return out
 
 
+def unit_anysize_rate(model, n, vec, limit, use_t):
+    """the real rate() on n teams of every size (anysize.rate_units)"""
+    from . import anysize
+    return anysize.rate_units("C01", model, n, vec, limit, use_t)
+
+
 def units(tier):
     us = [("unit_helpers", ())]
     nmax = 4 if tier == "quick" else 8
@@ -224,6 +230,9 @@ def units(tier):
     # biggest first for better packing
     us.sort(key=lambda u: 0 if u[0] == "unit_helpers" else -((sum(u[1][1]) * 2 ** len(u[1][1])) if u[0] != "unit_anysize" else 2 ** u[1][1]))
     us.insert(0, ("unit_gauss_contracts", ()))
+    for m in extract.MODELS:
+        for a in ([(2, 'ranks', False, True), (2, 'scores', True, False), (3, 'none', False, False)] if tier == "quick" else [(2, 'ranks', False, True), (2, 'scores', True, False), (3, 'none', False, False), (3, 'ranks', False, True), (3, 'scores', False, False), (2, 'none', True, True), (4, 'ranks', False, False)]):
+            us.append(("unit_anysize_rate", (m,) + a))
     return us
 
 
@@ -249,5 +258,5 @@ def main(tier, seed):
         explanation=("For every listed shape the real _compute of each model is executed on symbolic ratings and its per-player (mu, sigma) result terms are proved *identical as exact normal forms* (Laurent polynomials over canonical sqrt/exp/V/W atoms with named denominators) to the published Weng-Lin update written from the paper; "
                      "the real rate() (tau inflation, stable sort by rank, _compute, unsort, limit_sigma clamp) is proved equal to the spec composition for symbolic rank or score vectors on every path of the sort (every weak order). Values unbounded, shapes bounded. "
                      "Known finding K1: ThurstoneMostellerPart uses pair scale 2*sqrt(..) (proved equal to the published update with k = 2; the k = 1 obligation fails)."),
-        shapes=sorted({str(u[1][1]) if u[0] != "unit_anysize" else f"n={u[1][1]}, every team size (gamma {u[1][2]})" for u in units(tier) if len(u[1]) > 1}),
+        shapes=sorted({str(u[1][1]) if u[0] != "unit_anysize" else f"n={u[1][1]}, every team size (gamma {u[1][2]})" for u in units(tier) if len(u[1]) > 1 and u[0] != "unit_anysize_rate"} | {f"rate(): n={u[1][1]}, {u[1][2]}, limit_sigma={u[1][3]}, every team size" for u in units(tier) if u[0] == "unit_anysize_rate"}),
     )
